@@ -13,8 +13,8 @@ Proof. vm_compute. reflexivity. Qed.
 (* ---- containsUnknowns / containsSecrets: both sides look at the merged view ---- *)
 Theorem contains_flags_through_merged_view (c : chain) :
   ev_contains_unknowns_object_view = "merged" /\ ev_contains_secrets_object_view = "merged"
-  /\ contains_unknowns c = (match export big_fuel c with Some v => x_has_unknown v | None => true end)
-  /\ contains_secrets c = (match export big_fuel c with Some v => x_has_secret v | None => true end).
+  /\ contains_unknowns c = (match export_t c with Some v => x_has_unknown v | None => true end)
+  /\ contains_secrets c = (match export_t c with Some v => x_has_secret v | None => true end).
 Proof.
   split; [vm_compute; reflexivity|]. split; [vm_compute; reflexivity|].
   split; [unfold contains_unknowns|unfold contains_secrets]; reflexivity.
